@@ -765,7 +765,7 @@ def run(res, facts, tier):
 # ----------------------------------------------------------------------------------------------- R9: dereference on a path where the pointer is known null
 def _ptr_ref(e):
     e = strip_casts(e)
-    if isinstance(e, dict) and e.get('k') == 'Ref' and e.get('d') in ('local', 'param') and (e.get('ty') or '').rstrip().endswith('*') and 'id' in e:
+    if isinstance(e, dict) and e.get('k') == 'Ref' and e.get('d') in ('local', 'param') and re.search(r'\*\s*(const)?\s*$', e.get('ty') or '') and 'id' in e:
         return e
     return None
 
@@ -978,9 +978,72 @@ def _null_deref_paths(a, summ):
     return list(uniq.values())
 
 
+def _null_fallthrough(facts, a, summ):
+    """[(name, deref ast, what)]: `if (p == 0) { report }` whose report does not end the path, followed in straight line by a dereference of p.
+    Only statement nodes are followed (the walk stops at the next condition, loop, return or throw), so no correlated condition can make
+    the path infeasible; a call that raises an error (throw, problem(.., eError, ..), error(..)) ends the walk."""
+    cfg = CFG(a)
+    out = []
+    names = {}
+    for x in walk(a['body']):
+        if x.get('k') == 'Ref' and 'id' in x:
+            names[x['id']] = x.get('n')
+    n_tests = 0
+    for t in cfg.nodes:
+        if t.kind != 'cond' or t.ast is None:
+            continue
+        ck = _cond_key(t)
+        if not ck or ck[0][0] != 'eq' or ck[0][2] != 0:
+            continue
+        vid = ck[0][1]
+        e, _ = common.norm_atom(t.ast, True)
+        probe = None
+        if isinstance(e, dict) and e.get('k') == 'Bin':
+            probe = _ptr_ref(e.get('lhs')) or _ptr_ref(e.get('rhs'))
+        elif isinstance(e, dict):
+            probe = _ptr_ref(e)
+        if probe is None:
+            continue
+        n_tests += 1
+        key, tw = ck
+        nd = t.cond_true if tw else t.cond_false
+        steps = 0
+        seen = set()
+        while nd is not None and steps < 60 and nd.id not in seen:
+            seen.add(nd.id)
+            steps += 1
+            if nd.kind == 'join' and nd.ast is not None and nd.ast.get('k') in ('LoopHead', 'CaseLabel'):
+                break
+            if nd.kind not in ('stmt', 'join') or nd is cfg.exit or nd is cfg.throw:
+                break
+            if nd.ast is not None and nd.kind == 'stmt':
+                if vid in _effects(nd)[0]:
+                    break
+                ds = _derefs_of(nd, vid, summ)
+                if ds:
+                    out.append((names.get(vid, '?'), ds[0]))
+                    break
+                if nd.ast.get('k') in ('Return', 'Throw'):
+                    break
+                if common.reports_error(facts, [nd.ast], depth=2):
+                    break
+                if any(noreturn_like(c) for c in calls(nd.ast)):
+                    break
+            if len(nd.succ) != 1:
+                break
+            nd = nd.succ[0]
+    return out, n_tests
+
+
+def noreturn_like(c):
+    n = c.get('n') or callee(c).split('::')[-1]
+    return n.startswith('throw') or n in ('abort', 'exit', 'terminate', 'generateError', 'unknownOpCodeError')
+
+
 def r9_null_paths(res, facts):
-    r = res.rule('C03-R9', 'inside one condition, no operand dereferences a pointer (or hands it to a function that dereferences it untested) on the branch on which an earlier '
-                 'operand of the same condition found it null — the "a != 0 && b || c(a)" grouping mistake; short-circuit evaluation is expanded, so every reported path is feasible', floor=300)
+    r = res.rule('C03-R9', 'a pointer found null is not dereferenced: (a) inside one condition, no operand dereferences a pointer (or hands it to a function that dereferences it untested) '
+                 'on the branch on which an earlier operand found it null; (b) after "if (p == 0) { report }" the report ends the path (a throw, or problem()/error() with an error '
+                 'classification) before a straight-line dereference of p — a report downgraded to a warning falls through into the dereference', floor=300)
     summ = _DerefSummary(facts)
     fired = set(); fx = set()
     n_fn = 0
@@ -988,23 +1051,27 @@ def r9_null_paths(res, facts):
         a = facts.ast(k)
         if a is None or not (facts.lib_path(a['file']) or common.is_fixture(a)):
             continue
-        if not any(x.get('k') == 'Ref' and (x.get('ty') or '').rstrip().endswith('*') and x.get('d') in ('local', 'param') for x in walk(a['body'])):
+        if not any(x.get('k') == 'Ref' and re.search(r'\*\s*(const)?\s*$', x.get('ty') or '') and x.get('d') in ('local', 'param') for x in walk(a['body'])):
             continue
         try:
             hits = _null_deref_paths(a, summ)
+            falls, n_tests = _null_fallthrough(facts, a, summ)
         except RecursionError:
             continue
         fname = short(facts.name[k])
         if common.is_fixture(a):
             fx.add(fname)
-            if hits:
+            if hits or falls:
                 fired.add(fname)
             continue
         n_fn += 1
-        if not hits:
+        if not hits and not falls:
             r.ok(fname)
         for nm, x in hits:
             r.violation('%s: %s' % (strip_targs_local(fname), nm), '%s is used as a non-null pointer in %s on a path on which it has just been found to be null' % (nm, pp(x)[:90]), common.file_line(a, x))
+        for nm, x in falls:
+            r.violation('%s: %s after its null test' % (strip_targs_local(fname), nm), 'the branch taken when %s is null does not end the path (no throw, no error-classified report), and %s follows in '
+                        'straight line: a null %s is dereferenced' % (nm, pp(x)[:80], nm), common.file_line(a, x))
     fixture_summary(r, 'R9', fired, fx)
     return r
 
